@@ -8,10 +8,10 @@ open Mpir Finset
 section ring
 variable {S : Type} [CommRing S] (f : ℤ →+* S)
 
-/-- one column of the second loop of the outer inverse pass: given k·n2·(first-layer sums) in the first-half column and
+/-- one column of the last loop of the inverse MFA transform: given k·n2·(first-layer sums) in the first-half column and
     k·(twiddled column transform of the first-layer differences) in the relevant rows of the second-half column, both
-    columns come out as 2·k·n2·(coefficients)·2^(−(depth+depth2+1)) -/
-theorem imfaG2_val (e1 e2 w trunc : Nat) (hd : 64 ∣ 2 ^ (e1 + e2 + 1) * w) (hw : 1 ≤ w)
+    columns come out as 2·k·n2·(coefficients) -/
+theorem imfaG2u_val (e1 e2 w trunc : Nat) (hd : 64 ∣ 2 ^ (e1 + e2 + 1) * w) (hw : 1 ≤ w)
     (hz : f 2 ^ (2 ^ (e1 + e2 + 1) * w) = -1) (ht : TruncSOk (e1 + e2 + 1) trunc) (hdiv : 2 * 2 ^ (e1 + 1) ∣ trunc)
     (x : List Int) (h0 : ∀ j, trunc ≤ j → j < 4 * 2 ^ (e1 + e2 + 1) → f (el x j) = 0) (k : S)
     (i : Nat) (hi : i < 2 ^ (e1 + 1)) (ca cb0 : List Int) (hcbl : cb0.length = 2 ^ (e2 + 1))
@@ -20,12 +20,10 @@ theorem imfaG2_val (e1 e2 w trunc : Nat) (hd : 64 ∣ 2 ^ (e1 + e2 + 1) * w) (hw
     (hcb : ∀ s < (trunc - 2 * 2 ^ (e1 + e2 + 1)) / 2 ^ (e1 + 1), f (el cb0 (rev (e2 + 1) s)) =
       k * f (el (fft_radix2_twiddle e2 (w * 2 ^ (e1 + 1)) w 0 i 1
         (getCol (layerDiffs (2 ^ (e1 + e2 + 1)) w x) i (2 ^ (e1 + 1)) (2 ^ (e2 + 1)))) s)) :
-    (∀ m < 2 ^ (e2 + 1), f (el (imfaG2 e1 e2 w trunc i ca cb0).1 m) =
-      2 * (k * 2 ^ (e2 + 1)) * f (el x (i + m * 2 ^ (e1 + 1))) *
-        f 2 ^ (2 * (2 ^ (e1 + e2 + 1) * w) - (e2 + 1 + (e1 + 1) + 1))) ∧
-    (∀ m < (trunc - 2 * 2 ^ (e1 + e2 + 1)) / 2 ^ (e1 + 1), f (el (imfaG2 e1 e2 w trunc i ca cb0).2 m) =
-      2 * (k * 2 ^ (e2 + 1)) * f (el x (2 * 2 ^ (e1 + e2 + 1) + (i + m * 2 ^ (e1 + 1)))) *
-        f 2 ^ (2 * (2 ^ (e1 + e2 + 1) * w) - (e2 + 1 + (e1 + 1) + 1))) := by
+    (∀ m < 2 ^ (e2 + 1), f (el (imfaG2u e1 e2 w trunc i ca cb0).1 m) =
+      2 * (k * 2 ^ (e2 + 1)) * f (el x (i + m * 2 ^ (e1 + 1)))) ∧
+    (∀ m < (trunc - 2 * 2 ^ (e1 + e2 + 1)) / 2 ^ (e1 + 1), f (el (imfaG2u e1 e2 w trunc i ca cb0).2 m) =
+      2 * (k * 2 ^ (e2 + 1)) * f (el x (2 * 2 ^ (e1 + e2 + 1) + (i + m * 2 ^ (e1 + 1))))) := by
   have hN : 2 ^ (e1 + 1) * 2 ^ (e2 + 1) = 2 * 2 ^ (e1 + e2 + 1) := by
     rw [← pow_add, ← pow_succ']; congr 1; ring
   have ht2' := truncOk_of_dvd e1 e2 trunc ht hdiv
@@ -75,7 +73,7 @@ theorem imfaG2_val (e1 e2 w trunc : Nat) (hd : 64 ∣ 2 ^ (e1 + e2 + 1) * w) (hw
              else sq2 (2 ^ (e1 + e2 + 1) * w) (i + m * 2 ^ (e1 + 1)) w) := by
     intro m hm
     rw [el_getCol _ _ _ _ _ hm, layerDiffs, el_range_map _ _ _ (hidx m hm), ewn, map_mul, map_sub]
-  unfold imfaG2
+  unfold imfaG2u
   simp only [htr2, ewn]
   obtain ⟨rl, rv⟩ := revSwaps_spec (e2 + 1) cb0 hcbl trunc2 ht2'.2.2
   -- the column handed to the truncated inverse transform
@@ -127,8 +125,7 @@ theorem imfaG2_val (e1 e2 w trunc : Nat) (hd : 64 ∣ 2 ^ (e1 + e2 + 1) * w) (hw
     rw [hb, hDiff m hm2]
   constructor
   · intro m hm
-    rw [el_map_lt _ _ _ (by rw [length_fsts]; exact hm), el_fsts _ _ _ hm, map_mul, map_pow]
-    congr 1
+    rw [el_fsts _ _ _ hm]
     by_cases hm2 : m < trunc2
     · rw [if_pos (hlow m hm2)]
       exact (key m hm2 _ _ (hca m hm) (I m hm2)).1
@@ -136,9 +133,37 @@ theorem imfaG2_val (e1 e2 w trunc : Nat) (hd : 64 ∣ 2 ^ (e1 + e2 + 1) * w) (hw
       simp; ring
   · intro m hm
     have hm2 : m < 2 ^ (e2 + 1) := lt_of_lt_of_le hm ht2'.2.2
-    rw [el_range_map _ _ _ hm2, if_pos hm, el_snds _ _ _ hm2, map_mul, map_pow, if_pos (hlow m hm)]
-    congr 1
+    rw [el_snds _ _ _ hm2, if_pos (hlow m hm)]
     exact (key m hm _ _ (hca m hm2) (I m hm)).2
+
+/-- … and of the second loop of the outer variant: the same, divided by 2^(depth+depth2+1) -/
+theorem imfaG2_val (e1 e2 w trunc : Nat) (hd : 64 ∣ 2 ^ (e1 + e2 + 1) * w) (hw : 1 ≤ w)
+    (hz : f 2 ^ (2 ^ (e1 + e2 + 1) * w) = -1) (ht : TruncSOk (e1 + e2 + 1) trunc) (hdiv : 2 * 2 ^ (e1 + 1) ∣ trunc)
+    (x : List Int) (h0 : ∀ j, trunc ≤ j → j < 4 * 2 ^ (e1 + e2 + 1) → f (el x j) = 0) (k : S)
+    (i : Nat) (hi : i < 2 ^ (e1 + 1)) (ca cb0 : List Int) (hcbl : cb0.length = 2 ^ (e2 + 1))
+    (hca : ∀ m < 2 ^ (e2 + 1), f (el ca m) = k * 2 ^ (e2 + 1) *
+      (f (el x (i + m * 2 ^ (e1 + 1))) + f (el x (2 * 2 ^ (e1 + e2 + 1) + (i + m * 2 ^ (e1 + 1))))))
+    (hcb : ∀ s < (trunc - 2 * 2 ^ (e1 + e2 + 1)) / 2 ^ (e1 + 1), f (el cb0 (rev (e2 + 1) s)) =
+      k * f (el (fft_radix2_twiddle e2 (w * 2 ^ (e1 + 1)) w 0 i 1
+        (getCol (layerDiffs (2 ^ (e1 + e2 + 1)) w x) i (2 ^ (e1 + 1)) (2 ^ (e2 + 1)))) s)) :
+    (∀ m < 2 ^ (e2 + 1), f (el (imfaG2 e1 e2 w trunc i ca cb0).1 m) =
+      2 * (k * 2 ^ (e2 + 1)) * f (el x (i + m * 2 ^ (e1 + 1))) *
+        f 2 ^ (2 * (2 ^ (e1 + e2 + 1) * w) - (e2 + 1 + (e1 + 1) + 1))) ∧
+    (∀ m < (trunc - 2 * 2 ^ (e1 + e2 + 1)) / 2 ^ (e1 + 1), f (el (imfaG2 e1 e2 w trunc i ca cb0).2 m) =
+      2 * (k * 2 ^ (e2 + 1)) * f (el x (2 * 2 ^ (e1 + e2 + 1) + (i + m * 2 ^ (e1 + 1)))) *
+        f 2 ^ (2 * (2 ^ (e1 + e2 + 1) * w) - (e2 + 1 + (e1 + 1) + 1))) := by
+  obtain ⟨U1, U2⟩ := imfaG2u_val f e1 e2 w trunc hd hw hz ht hdiv x h0 k i hi ca cb0 hcbl hca hcb
+  have ht2' := truncOk_of_dvd e1 e2 trunc ht hdiv
+  have ewn : wnOf (2 ^ (e1 + e2 + 1)) w = 2 ^ (e1 + e2 + 1) * w := wnOf_eq _ _ hd
+  have hl1 : (imfaG2u e1 e2 w trunc i ca cb0).1.length = 2 ^ (e2 + 1) := by simp [imfaG2u, length_fsts]
+  unfold imfaG2
+  simp only [ewn]
+  constructor
+  · intro m hm
+    rw [el_map_lt _ _ _ (by rw [hl1]; exact hm), map_mul, map_pow, U1 m hm]
+  · intro m hm
+    have hm2 : m < 2 ^ (e2 + 1) := lt_of_lt_of_le hm ht2'.2.2
+    rw [el_range_map _ _ _ hm2, if_pos hm, map_mul, map_pow, U2 m hm]
 
 /-- the outer inverse pass: from k·(column-transformed matrices) of a coefficient vector that vanishes from `trunc`
     on, 2·k·n2·2^(−(depth+depth2+1)) times the coefficients (all of the first half, the first trunc − 2n of the second) -/
@@ -201,7 +226,7 @@ theorem ifft_mfa_outer_spec (e1 e2 w trunc : Nat) (hd : 64 ∣ 2 ^ (e1 + e2 + 1)
   -- stage 2: both columns
   have hG2 : ∀ i ca cb, (imfaG2 e1 e2 w trunc i ca cb).1.length = 2 ^ (e2 + 1) ∧
       (imfaG2 e1 e2 w trunc i ca cb).2.length = 2 ^ (e2 + 1) := by
-    intro i ca cb; simp [imfaG2, length_fsts]
+    intro i ca cb; simp [imfaG2, imfaG2u, length_fsts]
   obtain ⟨l2, v2⟩ := fold_cols (2 ^ (e1 + 1)) (2 ^ (e2 + 1)) (imfaG2 e1 e2 w trunc) hG2 Y1 (by rw [l1, hxl])
     (2 ^ (e1 + 1)) le_rfl
   have col : ∀ i < 2 ^ (e1 + 1), _ := fun i hi =>
